@@ -18,6 +18,66 @@ from ..common import Check
 LEVEL = "model_checking"
 
 
+def _file_based_bad_frame(chk: Check) -> None:
+    """The file-based framing (FileBasedPacketSerializer): a frame its loader refuses costs one parse error and nothing else, wherever
+    the reads cut the stream - what follows the refused frame in the same read is not thrown away."""
+    from easynetwork.exceptions import StreamProtocolParseError
+    from easynetwork.lowlevel._stream import BufferedStreamDataConsumer, StreamDataConsumer
+    from easynetwork.protocol import BufferedStreamProtocol, StreamProtocol
+
+    from .. import serializers
+
+    entry = next(e for e in serializers.entries() if e.name == "FileBasedPacketSerializer(subclass)")
+    ser = entry.make()
+    good = [b"one", b"", b"three!"]
+    frames = [b"".join(ser.incremental_serialize(good[0])), b"\xff\xff", b"".join(ser.incremental_serialize(good[1])), b"".join(ser.incremental_serialize(good[2]))]
+    stream = b"".join(frames)
+    want = [good[0], "ERR", good[1], good[2]]
+    n = 0
+    chunkings = [[len(stream)], [1] * len(stream)] + [[k, len(stream) - k] for k in range(1, len(stream))] + [[3] * (len(stream) // 3 + 1), [5] * (len(stream) // 5 + 1)]
+    for buffered in (False, True):
+        for ck in chunkings:
+            consumer: Any = BufferedStreamDataConsumer(BufferedStreamProtocol(entry.make()), 64) if buffered else StreamDataConsumer(StreamProtocol(entry.make()))
+            got: list[Any] = []
+            pos = 0
+            problem = ""
+            try:
+                for size in ck:
+                    if pos >= len(stream):
+                        break
+                    arg: Any
+                    if buffered:
+                        with memoryview(consumer.get_write_buffer()) as view:
+                            m = min(size, view.nbytes, len(stream) - pos)
+                            view[:m] = stream[pos : pos + m]
+                        arg = m
+                    else:
+                        m = min(size, len(stream) - pos)
+                        arg = stream[pos : pos + m]
+                    pos += m
+                    while True:
+                        try:
+                            got.append(consumer.next(arg))
+                        except StopIteration:
+                            break
+                        except StreamProtocolParseError:
+                            got.append("ERR")
+                        arg = None
+            except Exception as exc:  # noqa: BLE001
+                problem = f" ({type(exc).__name__}: {exc})"
+            n += 1
+            chk.traces += 1
+            if got != want or problem:
+                chk.violation(
+                    {"kind": "file_based", "what": "bad_frame"},
+                    f"file-based framing, {'buffer-filling' if buffered else 'copying'} path, reads {ck[:6]}{'...' if len(ck) > 6 else ''} of the stream "
+                    f"[frame, refused header, frame, frame]: outcomes {got}{problem}, frame-by-frame decoding gives {want}",
+                    {"kind": "file_based_bad_frame", "buffered": buffered, "reads": ck},
+                )
+                return
+    chk.extra["file_based_bad_frame_chunkings"] = n
+
+
 def run(chk: Check) -> None:
     quick = chk.tier == "quick"
     rng = random.Random(chk.seed)
@@ -65,6 +125,7 @@ def run(chk: Check) -> None:
                 chk.distinct.add(t["meta"])
             sepcheck.validate(chk, rec, f"frame streams seplen={seplen} limit={limit}")
     chk.evaluations = total
+    _file_based_bad_frame(chk)
     from .. import burst
 
     burst.report(chk, "parsing must not depend on how the bytes arrive")
